@@ -213,7 +213,9 @@ def allowances(p, c, K, it, coef, var, lohi):
        slack: drift of sum(alpha) (every SMO step rounds two coefficients), plus the rounding of the initial point"""
     n = p["n"]
     scale = max(1.0, max(sum(abs(K[i][j] * coef[j]) for j in range(n)) for i in range(n)))
-    frel = 2.0 ** -22 if c["ctype"] == "f" else 64 * EPSM
+    # float cache: certify gets the float-rounded matrix the solver sees, so no allowance for the entries is needed; only the
+    # warm start loses precision there (setInitialSolution multiplies the float row by the coefficient CAST TO FLOAT)
+    frel = 2.0 ** -22 if (c["ctype"] == "f" and c["warm"]) else 64 * EPSM
     tol = frel * scale + 256 * EPSM * scale * math.sqrt(it + 1)
     asum = sum(abs(v) for v in var)
     amax = max([abs(v) for v in var] + [abs(x) for x in lohi if abs(x) < 1e300] + [1.0])
@@ -225,8 +227,13 @@ CERT_CODES = {1: "negative-eps", 2: "box", 3: "equality", 4: "kkt", 5: "bias"}
 
 def main():
     ck = Check(PID)
-    ck.trusted = DEFAULT_TRUSTED + ["modelled, not verified: the trainers' problem set-up code (read by the monitor as the documented dual); termination"]
-    ck.assumptions = ["kernel matrix symmetric positive semidefinite (linear and Gaussian kernels on the generated data)",
+    ck.trusted = DEFAULT_TRUSTED + ["the trainers' problem set-up code is modelled (C07Setup.v) and compared bit for bit on every run, not translated from the source; "
+                                    "the observation point is a partial specialisation of QpSolver in the harness TU that prints the problem and forwards to the unchanged primary template",
+                                    "rounding allowance (eps + 2*tol) and equality slack handed to the proved checker are computed by this script (formula in coverage.certify_allowances), not proved",
+                                    "std::exp of the log-encoded regularisation parameters: the model uses the exp of OCaml's runtime (the same libm) and is compared bit for bit",
+                                    "not verified: termination of the solver"]
+    ck.assumptions = ["kernel matrix symmetric positive semidefinite: PROVED for the linear kernel (exact Gram matrix, C07_linear_kernel_gram_is_sym_psd, and the eps-SVR block matrix); for the Gaussian kernel "
+                      "the double-valued matrix is an input and its positive semidefiniteness is an assumption monitored by a pivoted LDL^T on every run",
                       "results are judged only when the trainer reports QpAccuracyReached; the iteration limit is 2e6",
                       "data with integer/dyadic coordinates, C in 0.125..1000 (the extreme-scale family of finding F3 is C08's extreme stream)"]
     ck.proofs()
@@ -264,7 +271,7 @@ def main():
             na = int(t[8])
             results[t[1]] = (int(t[2]), int(t[3]), float.fromhex(t[4]), float.fromhex(t[5]), int(t[6]), float.fromhex(t[7]), [float.fromhex(v) for v in t[9:9 + na]])
         elif t[0] in ("EXC", "STDEXC"): results[t[1]] = l
-    nrep = 0; keys = {}; nacc = 0; groups = {}; Kc = {}
+    nrep = 0; keys = {}; nacc = 0; groups = {}; Kc = {}; monfail = set()
     def rep(p, c, cid, key, msg):
         nonlocal nrep
         k2 = "%s:%s:bias%d:warm%d" % (key, p["trainer"], p["bias"], c["warm"]); keys[k2] = keys.get(k2, 0) + 1
@@ -284,6 +291,7 @@ def main():
         if id(p) not in Kc:
             Kd = kernel_matrix(p); Kc[id(p)] = (Kd, [[f32(v) for v in row] for row in Kd])
         bad, obj = monitor(p, c, Kc[id(p)][1 if c["ctype"] == "f" else 0], r)
+        if bad: monfail.add(cid)
         for key, msg in bad[:1]: rep(p, c, cid, key, "%s [%s shrink=%d prec=%d cache=%s warm=%d]" % (msg, p["trainer"], c["shrink"], c["prec"], c["ctype"], c["warm"]))
         if r[0] == 1:
             nacc += 1
@@ -332,7 +340,8 @@ def main():
             if id(p) not in want: psd_min = min(psd_min, psd_min_pivot(Kuse))
         dl.append("C %s %d %s %d %s %s %s %s %s %s" % (cid, eq, fhex(target), 1 if (eq and r[4] == 1) else 0, fhex(r[5]), fhex(eps_c), fhex(slack), fhex(0.0), km, " ".join(hf[(cid, last)])))
         want[cid] = (eps_c, slack, 2 * tol); want[id(p)] = True
-        allow_max["eps_allowance_2tol"] = max(allow_max["eps_allowance_2tol"], 2 * tol / p["eps"])
+        ak_ = "eps_allowance_2tol" if not (c["ctype"] == "f" and c["warm"]) else "eps_allowance_2tol_float_warm"
+        allow_max[ak_] = max(allow_max.get(ak_, 0.0), 2 * tol / p["eps"])
         allow_max["slack_eq"] = max(allow_max["slack_eq"], slack)
         allow_max["bound_slack_term"] = max(allow_max["bound_slack_term"], abs(r[5]) * 2 * slack)
     mf = os.path.join(tmpd, "model_in.txt"); open(mf, "w").write("\n".join(dl) + "\n")
@@ -357,7 +366,10 @@ def main():
         d = {"case_file": path, "case": line, "observed": msg, "expected": "the problem assembled by the model C07Setup.v / a result accepted by the proved checker C07Cert.certify (Properties_C07.v)",
              "problem": {k: v for k, v in p.items()}, "config": c, "replay_cmd": "python3 tools/c07.py --replay %s" % path}
         if extra: d.update(extra)
-        ck.violation(k2, d, "extracted model vs implementation: " + msg)
+        # decision logic of BUILDERS.md: a broken correspondence on an input where neither the spec monitor nor the proved checker
+        # finds a fault of the result is reported as such (the case is still the replay)
+        noinp = not key.startswith("certify:") and cid not in monfail and mcert.get(cid, ["0"])[0] == "0"
+        ck.violation(k2, d, "extracted model vs implementation: " + msg + (" (the spec monitor and the proved checker accept the trainer's result on this input)" if noinp else ""), no_input=noinp)
     fields = ["linear", "boxMin", "boxMax", "initial alpha"]
     for p, c, cid in items:
         r = results.get(cid)
@@ -411,9 +423,9 @@ def main():
     ck.oblige("assembly model (C07Setup.v, extracted, IEEE doubles) reproduces the problem the real trainer hands to QpSolver bit for bit "
               "(%d solve calls; %d eps-SVR coefficient vectors; %d block matrices)" % (nasm, ncoef, nblock), not ak, "" if not ak else json.dumps(ak))
     ck.oblige("proved checker C07Cert.certify (extracted, exact rationals) accepts every result reported as accurate (%d runs)" % ncert, not ckk, "" if not ckk else json.dumps(ckk))
-    ck.notes["certify_allowances"] = {"formula": "eps_certify = eps + 2*tol, tol = frel*scale + 256*u*scale*sqrt(iterations+1) (u = 2^-52, frel = 64u, 2^-22 with a float cache; scale = max_i sum_j |K_ij alpha_j|): "
+    ck.notes["certify_allowances"] = {"formula": "eps_certify = eps + 2*tol, tol = frel*scale + 256*u*scale*sqrt(iterations+1) (u = 2^-52, frel = 64u, 2^-22 for a warm start with a float cache, whose initial gradient is formed with the coefficients cast to float; scale = max_i sum_j |K_ij alpha_j|): "
                                       "the solver stops on its own incrementally updated double gradient; slack_eq = 64u(sum|alpha|+1) + 4u*steps*max(|alpha|,|box|): rounding of two coefficients per SMO step; slack_bias = 0",
-                                      "max 2*tol/eps": allow_max["eps_allowance_2tol"], "max slack_eq": allow_max["slack_eq"], "max |bias|*2*slack_eq (slack term of the proved bound)": allow_max["bound_slack_term"]}
+                                      "max 2*tol/eps": allow_max["eps_allowance_2tol"], "max 2*tol/eps (warm start with float cache)": allow_max.get("eps_allowance_2tol_float_warm", 0.0), "max slack_eq": allow_max["slack_eq"], "max |bias|*2*slack_eq (slack term of the proved bound)": allow_max["bound_slack_term"]}
     ck.notes["psd_monitor_min_pivot_rel"] = psd_min
     ck.oblige("kernel matrices handed to certify as doubles (Gaussian kernel) are positive semidefinite up to rounding (pivoted LDL^T, smallest pivot %.3g relative)" % psd_min, psd_min >= -1e-9)
     ck.notes["model_failures_by_key"] = keys2; ck.notes["assembly_solve_calls_compared"] = nasm; ck.notes["certified_runs"] = ncert
@@ -422,9 +434,10 @@ def main():
               "" if not keys else json.dumps(keys))
     ck.cov["evaluations"] = len(items)
     ck.cov["distinct_nontrivial"] = len(set(case_line(p, c, "x") for p, c, cid in items if not isinstance(results.get(cid), str) and results.get(cid) and results[cid][1] >= 2))
-    ck.cov["rule"] = ("trainer-level runs: CSvmTrainer (bias / no bias, class-specific C, weighted examples, float/double cache), EpsilonSvmTrainer, OneClassSvmTrainer on n=4..30 points "
+    ck.cov["rule"] = ("trainer-level runs: CSvmTrainer (bias / no bias, class-specific C, one- and two-regulariser constructors, log-encoded regularisation parameters, weighted examples, float/double cache), EpsilonSvmTrainer, OneClassSvmTrainer on n=4..30 points "
                       "(integer/dyadic coordinates, duplicates, unbalanced classes), linear/Gaussian kernels, C in 0.125..1000, eps in 1e-2..1e-5, each problem under "
-                      "{shrinking on/off} x {precomputed, default cache, 2-row cache} x {cold, warm}; non-trivial = at least 2 solver iterations")
+                      "{shrinking on/off} x {precomputed, default cache, 2-row cache} x {cold, warm}, plus warm starts after the regularisation constants were lowered by a factor 4 (clipping + rebalancing of the old solution); "
+                      "every run: problem assembled by the extracted model == problem observed inside the trainer's QpSolver::solve call, and the extracted proved checker certify accepts the returned variables; non-trivial = at least 2 solver iterations")
     ck.cov["samples"] = [case_line(p, c, cid)[:300] for p, c, cid in items[:2]]
     ck.cov["traces_validated_against_impl"] = len(items)
     ck.cov["disagreements_checked"] = sum(keys.values())
